@@ -230,8 +230,9 @@ class Check:
             "violations": self.violations,
             "known_findings_hit": sorted(set(self.known_hits)),
         }
-        EVIDENCE.mkdir(parents=True, exist_ok=True)
-        (EVIDENCE / f"{self.pid}.json").write_text(json.dumps(ev, indent=1))
+        edir = EVIDENCE if self.pid.startswith("C") else EVIDENCE / "growth"   # growth checks are not listed properties
+        edir.mkdir(parents=True, exist_ok=True)
+        (edir / f"{self.pid}.json").write_text(json.dumps(ev, indent=1))
         shutil.rmtree(self.scratch, ignore_errors=True)
         st = "HELD" if self.violations == 0 else f"{self.violations} VIOLATION(S)"
         print(f"[{self.pid}] {st}; tier={self.tier} seed={self.seed} states={self.cov['states']} "
